@@ -513,6 +513,12 @@ func (u *Unit) closure(lit *ast.FuncLit, env *Env) Value {
 			for _, o := range rets {
 				conds := append([]Term(nil), o.env.pc[base2:]...)
 				val := o.vals[i].Term
+				factIdx := map[int]bool{}
+				for ci, cd := range conds {
+					if u.calleeFacts[cd.S] {
+						factIdx[ci] = true
+					}
+				}
 				// constants introduced while executing the body that are *defined* by an equation among the conditions (results
 				// of calls by contract: r == <term over the parameters>) are eliminated by substitution, so that the axiom
 				// speaks about all arguments and not about one fixed result
@@ -537,6 +543,15 @@ func (u *Unit) closure(lit *ast.FuncLit, env *Env) Value {
 								continue
 							}
 							conds = append(conds[:ci:ci], conds[ci+1:]...)
+							nf := map[int]bool{}
+							for k2, isF := range factIdx {
+								if k2 < ci {
+									nf[k2] = isF
+								} else if k2 > ci {
+									nf[k2-1] = isF
+								}
+							}
+							factIdx = nf
 							for cj := range conds {
 								conds[cj] = Term{replaceToken(conds[cj].S, cname, def), conds[cj].Sort}
 							}
@@ -567,10 +582,28 @@ func (u *Unit) closure(lit *ast.FuncLit, env *Env) Value {
 						}
 					}
 					if droppable {
+						nf := map[int]bool{}
+						k3 := 0
+						for ci, cd := range conds {
+							if !containsToken(cd.S, cname) {
+								nf[k3] = factIdx[ci]
+								k3++
+							}
+						}
+						factIdx = nf
 						conds = keep
 					}
 				}
-				conj = append(conj, Imp(And(conds...), Same(lhs, val)))
+				// postconditions of callees used by contract are consequences of reaching the call, not conditions on the arguments
+				var ante, facts []Term
+				for ci, cd := range conds {
+					if factIdx[ci] {
+						facts = append(facts, cd)
+					} else {
+						ante = append(ante, cd)
+					}
+				}
+				conj = append(conj, Imp(And(ante...), And(append(facts, Same(lhs, val))...)))
 			}
 			body := And(conj...)
 			// generalise the parameter constants into bound variables
@@ -940,9 +973,35 @@ func (u *Unit) callByContract(c *ast.CallExpr, fi *FuncInfo, blk *Block, recv *V
 		env.assume(t)
 	}
 	pre := sc.old
+	// recursion: the callee's measure at this call is non-negative and smaller than the caller's at entry
+	if fi == u.FI && u.litTarget == nil {
+		u.checkDecreases(env, blk, sc, c, "")
+	}
 	// effects
 	if !blk.Pure {
 		mods := u.evalModifies(blk, env, sc)
+		// what the callee may write must be writable by the caller: fresh since the caller's entry, or in its own modifies
+		{
+			var prefixes []string
+			for pfx := range mods.refs {
+				prefixes = append(prefixes, pfx)
+			}
+			sort.Strings(prefixes)
+			for _, pfx := range prefixes {
+				for _, r := range mods.refs[pfx] {
+					sub := env.clone()
+					sub.assume(Not(Same(r, Term{"nil_Ref", SRef})))
+					if g, ok := mods.nonEmpty[r.S]; ok {
+						sub.assume(g)
+					}
+					u.frameCheckRef(sub, r, "callee-modifies", c)
+					u.adoptDecls(env, sub)
+				}
+			}
+			if mods.all && !u.modifiesAll && !u.noFrame && !u.inSpec {
+				u.safety(env, "frame", c.Pos(), u.exprText(c)+" (callee modifies all)", False)
+			}
+		}
 		if blk.Opts["effects"] == "trace" {
 			u.havocTrace(env)
 		}
@@ -984,7 +1043,11 @@ func (u *Unit) callByContract(c *ast.CallExpr, fi *FuncInfo, blk *Block, recv *V
 	}
 	sc.post = true
 	for _, cl := range blk.Of("ensures") {
-		env.assume(u.specExprCtx(cl, env, sc))
+		t := u.specExprCtx(cl, env, sc)
+		if u.inClosure > 0 {
+			u.calleeFacts[t.S] = true
+		}
+		env.assume(t)
 	}
 	for i, gv := range gvals {
 		u.knownRefsOf(env, gv.Term)
@@ -999,6 +1062,25 @@ func (u *Unit) callByContract(c *ast.CallExpr, fi *FuncInfo, blk *Block, recv *V
 	}
 	if len(vals) > 0 {
 		u.registerReturnedLit(env, fi, blk, vals[0].Term, scope)
+	}
+	// "opt result-name=<f>": the (single) result of this heap-independent, deterministic function is named uf_<f>(arguments) in
+	// specifications (a definition by naming; the function's own contract proves the unfolding equation of <f>)
+	if rn := blk.Opts["result-name"]; rn != "" && len(gvals) == 1 {
+		var ts []Term
+		var ss []Sort
+		if recv != nil {
+			ts, ss = append(ts, recv.Term), append(ss, recv.Sort)
+		}
+		for _, a := range args {
+			ts, ss = append(ts, a.Term), append(ss, a.Sort)
+		}
+		u.D.Fun("uf_"+rn, gvals[0].Sort, ss...)
+		nameEq := Same(gvals[0].Term, App("uf_"+rn, gvals[0].Sort, ts...))
+		if u.inClosure > 0 {
+			u.calleeFacts[nameEq.S] = true
+		}
+		env.assume(nameEq)
+		u.assumeUsed(fi.Key + " is a deterministic function of its arguments (its result is named " + rn + " in specifications)")
 	}
 	return ret(env, vals...)
 }
@@ -1034,10 +1116,12 @@ func modsFor(refs map[string][]Term, name string) []Term {
 type modSet struct {
 	all  bool
 	refs map[string][]Term // heap name ("" = any heap) -> refs
+	// for a slice target: the reference can only be written when the slice has cells (guard for the caller-side frame check)
+	nonEmpty map[string]Term
 }
 
 func (u *Unit) evalModifies(blk *Block, env *Env, sc *specCtx) modSet {
-	ms := modSet{refs: map[string][]Term{}}
+	ms := modSet{refs: map[string][]Term{}, nonEmpty: map[string]Term{}}
 	for _, cl := range blk.Of("modifies") {
 		for _, part := range splitTopLevel(cl.Text, ',') {
 			part = strings.TrimSpace(part)
@@ -1075,6 +1159,7 @@ func (u *Unit) evalModifies(blk *Block, env *Env, sc *specCtx) modSet {
 				ms.refs[prefix] = append(ms.refs[prefix], t)
 			case SSlice:
 				ms.refs["SH_"] = append(ms.refs["SH_"], sBase(t))
+				ms.nonEmpty[sBase(t).S] = lt(IntLit(0), sCap(t))
 			default:
 				unsup("modifies target of sort %s: %s", t.Sort, part)
 			}
@@ -1408,4 +1493,29 @@ func (u *Unit) dispatchIface(c *ast.CallExpr, se *ast.SelectorExpr, sel *types.S
 	}
 	outs = append(outs, ret(rest, vals...)...)
 	return outs, true
+}
+
+// termination of self-recursion: "decreases <int expr>" over the parameters (evaluated for the call's arguments and for the
+// unit's own entry values); a recursive unit without a decreases clause gets a failing obligation
+func (u *Unit) checkDecreases(env *Env, blk *Block, callee *specCtx, at ast.Node, tag string) {
+	cls := blk.Of("decreases")
+	if len(cls) == 0 {
+		u.assert(env, "decreases/missing"+tag+"@"+u.posTag(at), "decreases", at.Pos(), "a recursive call needs a decreases clause", False)
+		return
+	}
+	cl := cls[0]
+	save := u.inSpec
+	u.inSpec = true
+	mCallee := u.sv(u.parseSpec(cl), env, callee)
+	own := *u.ownCtx
+	mOwn := u.sv(u.parseSpec(cl), u.entry, &own)
+	u.inSpec = save
+	u.assert(env, "decreases"+tag+"@"+u.posTag(at), "decreases", at.Pos(), "0 <= measure at the recursive call < measure at entry: "+cl.Text, And(le(IntLit(0), mCallee.Term), lt(mCallee.Term, mOwn.Term)))
+}
+
+func (u *Unit) posTag(at ast.Node) string {
+	if c, ok := at.(*ast.CallExpr); ok {
+		return u.siteTag(c)
+	}
+	return "site"
 }
